@@ -152,6 +152,13 @@ func (ctx *Ctx) genFunc(fn *ssa.Function, ct *Contract, houdini map[int][]*Claus
 		g.note("no reachable return")
 	}
 	if ct != nil {
+		for _, cs := range ct.LoopStep {
+			for _, c := range cs {
+				if g.atReturnUsed["step:"+c.Text] == 0 && len(f.loops) > 0 {
+					g.specErrs = append(g.specErrs, fmt.Sprintf("%s:%d: loop step %q applies to no back edge", ct.File, c.Line, c.Text))
+				}
+			}
+		}
 		for _, c := range ct.AtReturn {
 			if g.atReturnUsed[c.Text] == 0 {
 				g.specErrs = append(g.specErrs, fmt.Sprintf("%s:%d: at-return %q applies to no return site", ct.File, c.Line, c.Text))
